@@ -339,7 +339,7 @@ def gen_program(d, **kw):
     return Gen(d, **kw).program()
 
 
-def gen_kinship_competition(d):
+def gen_kinship_competition(d, shared_bias=False):
     """Constructed family for C06: 3-6 flows that all wait for the SAME event and then act (start/await an action drawn
     from two scripts - identical actions are shared -, or send an event), arranged in a random forest: a flow starts /
     activates / awaits its children at its head, a child may be linked from a second flow (two instances of one flow
@@ -359,7 +359,9 @@ def gen_kinship_competition(d):
             # a second link to the same flow from another flow: two instances under different parents
             children[d.randint(0, k - 1, "kparent2", k)].append(k)
     flows = []
-    main_body = [{"k": d.weighted([("activate_flow", 3), ("start_flow", 2)], "kmainhow", r), "flow": "f%d" % r} for r in roots]
+    # shared_bias (C11): one action script for everybody, plain `start`ed roots, flows that end right after starting the action next
+    # to flows that wait for it: a finished flow instance and a running one then share one action object
+    main_body = [{"k": d.weighted([("activate_flow", 1 if shared_bias else 3), ("start_flow", 3 if shared_bias else 2)], "kmainhow", r), "flow": "f%d" % r} for r in roots]
     if d.chance(0.4, "kmainends"):
         main_body += [{"k": "match", "ev": ev, "args": {}}, {"k": "send", "ev": "Mmain", "args": {}}]
     else:
@@ -378,21 +380,25 @@ def gen_kinship_competition(d):
             body.append({"k": "await_flow", "flow": "f%d" % awaited})
         else:
             body.append({"k": "match", "ev": ev, "args": {}})
-        act = d.weighted([("start_action", 4), ("await_action", 2), ("send", 2), ("start_ref_wait", 1)], "kact", k)
-        script = d.choice(["s1", "s2"], "kscript", k)
+        act = d.weighted([("start_action", 4), ("await_action", 4 if shared_bias else 2), ("send", 0.5 if shared_bias else 2), ("start_ref_wait", 3 if shared_bias else 1)], "kact", k)
+        script = "s1" if shared_bias and d.chance(0.85, "kshared", k) else d.choice(["s1", "s2"], "kscript", k)
         if act == "send":
             body.append({"k": "send", "ev": "M%d" % k, "args": {}})
         elif act == "start_ref_wait":
             body += [{"k": "start_action", "action": "UtteranceBotAction", "args": {"script": script}, "ref": "$a%d" % k}, {"k": "match_ref", "ref": "$a%d" % k, "member": "Finished"}]
         else:
             body.append({"k": act, "action": "UtteranceBotAction", "args": {"script": script}})
-        tail = d.weighted([("end", 2), ("match_again", 3), ("when", 2), ("hold", 2)], "ktail", k)
+        tail = d.weighted([("end", 5 if shared_bias and act == "start_action" else 2), ("match_again", 3), ("when", 2), ("hold", 2)], "ktail", k)
+        if shared_bias and act in ("await_action", "start_ref_wait") and tail == "end":
+            tail = "marker"
         if tail == "match_again":
             body += [{"k": "match", "ev": ev, "args": {}}, {"k": "send", "ev": "T%d" % k, "args": {}}]
         elif tail == "when":
             body.append({"k": "when", "cases": [{"cond": "%s()" % ev, "body": [{"k": "send", "ev": "W%d" % k, "args": {}}]}], "else": None})
         elif tail == "hold":
             body.append({"k": "match", "ev": "Hold", "args": {}})
+        elif tail == "marker":
+            body += [{"k": "send", "ev": "A%d" % k, "args": {}}, {"k": "match", "ev": "Hold", "args": {}}]
         fl = {"name": "f%d" % k, "body": body}
         if d.chance(0.3, "kloop", k):
             fl["decorators"] = ['@loop("L%d")' % d.randint(1, 2, "kloopid", k)]
